@@ -19,6 +19,22 @@ def mk_track(xs, ys=None, zs=None, ts=None, day=(2020, 6, 15)):
     return Track(obs)
 
 
+def mk_track_ms(xs, ys, zs, ts_ms, day=(2020, 6, 15)):
+    """ENU track whose timestamps are <day> 12:00:00 + ts_ms[i] milliseconds, built from calendar FIELDS (no float round trip)."""
+    from tracklib.core.track import Track
+    from tracklib.core.obs import Obs
+    from tracklib.core.obs_coords import ENUCoords
+    from tracklib.core.obs_time import ObsTime
+    obs = []
+    for i in range(len(xs)):
+        ms = int(ts_ms[i])
+        s, ms = divmod(ms, 1000)
+        m, s = divmod(s, 60)
+        h, m = divmod(m, 60)
+        obs.append(Obs(ENUCoords(float(xs[i]), float(ys[i]), float(zs[i])), ObsTime(day[0], day[1], day[2], 12 + h, m, s, ms)))
+    return Track(obs)
+
+
 def isnan(v):
     return isinstance(v, float) and math.isnan(v)
 
